@@ -64,6 +64,7 @@ type Op struct {
 	Plog    [][]uint64 `json:"plog,omitempty"`
 	IDs     []uint64   `json:"ids,omitempty"`
 	Infos   []Info     `json:"infos,omitempty"`
+	LT      uint64     `json:"lt,omitempty"` // LastTick as sent by the client: the DB stamps its own tick, whatever the message says
 	// reqs
 	Reqs []Req `json:"reqs,omitempty"`
 	// regions (scheddiff): the protobuf-encoded pb.Regions written under regions-key
@@ -133,7 +134,7 @@ func (op *Op) ToUpdate() *pb.Update {
 	case "kv":
 		return &pb.Update{Type: pb.Update_KV, KvUpdate: &pb.KV{Key: []byte(op.Key), Value: []byte(op.Value), InstanceId: op.Inst, OldInstanceId: op.Old, Tick: op.Tick, Finalized: op.Fin}}
 	case "report":
-		nhi := &pb.NodeHostInfo{RaftAddress: op.Addr, RPCAddress: op.RPC, Region: op.Region, PlogInfoIncluded: op.PlogInc, ShardIdList: op.IDs}
+		nhi := &pb.NodeHostInfo{RaftAddress: op.Addr, RPCAddress: op.RPC, Region: op.Region, PlogInfoIncluded: op.PlogInc, ShardIdList: op.IDs, LastTick: op.LT}
 		for _, p := range op.Plog {
 			nhi.PlogInfo = append(nhi.PlogInfo, &pb.LogInfo{ShardId: p[0], ReplicaId: p[1]})
 		}
@@ -451,6 +452,53 @@ func LookupKV(db sm.IStateMachine, key string) (*pb.KV, bool) {
 
 func LookupContext(db sm.IStateMachine) ([]byte, bool) {
 	return lookup(db, &pb.LookupRequest{Type: pb.LookupRequest_SCHEDULER_CONTEXT})
+}
+
+// LookupAll answers every kind of query the DB serves, canonically (context as served: it is JSON with sorted map keys;
+// shard definitions sorted by id; one state line per known shard; KV for the given keys; pending batch per address).
+func LookupAll(db sm.IStateMachine, d *Dump, keys []string, addrs []string) (out string, panicked bool) {
+	defer func() {
+		if r := recover(); r != nil {
+			panicked = true
+		}
+	}()
+	var sb strings.Builder
+	ctx, p := LookupContext(db)
+	if p {
+		return "", true
+	}
+	sb.WriteString("ctx=" + string(ctx))
+	shards, p := LookupShards(db)
+	if p {
+		return "", true
+	}
+	sort.Slice(shards, func(i, j int) bool { return shards[i].ShardId < shards[j].ShardId })
+	for _, c := range shards {
+		sb.WriteString(fmt.Sprintf(";def %d %v %s", c.ShardId, c.Members, c.AppName))
+	}
+	sb.WriteString(";" + StatesLine(db, d))
+	for _, k := range keys {
+		kv, p := LookupKV(db, k)
+		if p {
+			return "", true
+		}
+		if kv == nil {
+			sb.WriteString(fmt.Sprintf(";kv %q=nil", k))
+		} else {
+			sb.WriteString(fmt.Sprintf(";kv %q=%q:%q:%d:%d:%d:%v", k, kv.Key, kv.Value, kv.InstanceId, kv.Tick, kv.OldInstanceId, kv.Finalized))
+		}
+	}
+	for _, a := range addrs {
+		rs, p := LookupRequests(db, a)
+		if p {
+			return "", true
+		}
+		sb.WriteString(";req " + a + "=")
+		for _, r := range rs {
+			sb.WriteString(ReqStr(r))
+		}
+	}
+	return sb.String(), false
 }
 
 // Hash returns the state hash (the DB implements IHash).
